@@ -155,7 +155,7 @@ type Analyzer struct {
 	wireIDs       map[uint64]bool    // node ids used by wire-level harness peers
 	elXfer        map[[3]uint64]bool // (cid, candidate, term) -> the election had transfer permission
 	alias         map[uint64]uint64  // virtual node id -> peer id it speaks as (engine B)
-	lastWire      *ev.Rec
+	wireQ         []*ev.Rec // requests announced by the wire-level peer, not yet handled by the node
 	cfgPayload    map[[3]uint64]*ev.Cfg
 	ticks         int64
 	faultsStopped bool
@@ -519,18 +519,21 @@ func (a *Analyzer) Feed(r *ev.Rec) {
 		a.rep.Inconclusive = append(a.rep.Inconclusive, "harness error: "+r.Err)
 	case "wire-truncated":
 		a.stat("bursts-cut-in-the-middle")
-		a.lastWire = nil // the requests announced last did not arrive whole
+		a.wireQ = nil // the requests announced last did not arrive whole
 	case "wire-id":
 		a.wireIDs[r.ID] = true
 		if r.Src != 0 {
 			a.alias[r.ID] = r.Src
 		}
 	case "wire-send":
-		a.lastWire = r
+		a.wireQ = append(a.wireQ, r)
 		a.stat("wire-requests")
 		a.stat("wire:" + r.RPC + ":" + r.Note)
 	case "wire-recv":
 		a.stat("wire-replies:" + r.RPC + ":" + r.Res)
+		if r.Err != "" {
+			a.wireQ = nil
+		}
 	case "nut-gone":
 		a.find("C15", "node-stopped-serving", "", r.Q, "the node under test stopped serving while peers kept sending requests")
 	case "end":
